@@ -1,3 +1,3 @@
 import CobaVerif.Driver.Loop
--- stub: replaced when the C16 model exists
-def main : IO Unit := Coba.J.runLoop (fun _ => .error "C16 driver not implemented")
+import CobaVerif.Driver.C16
+def main : IO Unit := Coba.J.runLoop Coba.C16.Driver.handle
